@@ -169,6 +169,56 @@ fn committed_dump(world: &World) -> rawdb::Dump {
     rawdb::dump(&rtxn, world.db).unwrap()
 }
 
+/// One `ArroyBuilder` is cancelled from its n-th poll in a transaction that is then aborted; the fault is
+/// lifted and the same builder builds in a new transaction: that build must succeed with the configured options.
+fn same_builder_retry<D: Distance>(world: &World, sc: &Scenario, base_model: &IndexModel, n: u64, c: &mut Counters) -> Result<(), String> {
+    let writer = Writer::<D>::new(adb::<D>(world.db), sc.index, sc.dims);
+    let mut rng = StdRng::seed_from_u64(sc.opts.rng_seed);
+    let polls = AtomicU64::new(0);
+    let from = AtomicU64::new(n);
+    let p = pool(sc.opts.threads);
+    let mut b = writer.builder(&mut rng);
+    if let Some(t) = sc.opts.n_trees {
+        b.n_trees(t);
+    }
+    if let Some(s) = sc.opts.split_after {
+        b.split_after(s);
+    }
+    if let Some(m) = sc.opts.memory {
+        b.available_memory(m);
+    }
+    b.cancel(|| polls.fetch_add(1, Ordering::Relaxed) >= from.load(Ordering::Relaxed));
+    {
+        let mut wtxn = world.env.write_txn().unwrap();
+        let mut m = base_model.clone();
+        apply_pending::<D>(&mut wtxn, world.db, sc, &mut m)?;
+        match guarded(|| p.install(|| b.build(&mut wtxn))) {
+            Err(pn) => return Err(format!("cancel from poll {n}: build panicked: {pn}")),
+            Ok(Ok(())) | Ok(Err(arroy::Error::BuildCancelled)) => {}
+            Ok(Err(e)) => return Err(format!("cancel from poll {n}: build returned {e:?} instead of BuildCancelled")),
+        }
+        wtxn.abort();
+    }
+    from.store(u64::MAX, Ordering::Relaxed);
+    let mut wtxn = world.env.write_txn().unwrap();
+    let mut m = base_model.clone();
+    apply_pending::<D>(&mut wtxn, world.db, sc, &mut m)?;
+    match guarded(|| p.install(|| b.build(&mut wtxn))) {
+        Err(pn) => return Err(format!("retry on the same builder after a cancellation at poll {n}: build panicked: {pn}")),
+        Ok(Ok(())) => {}
+        Ok(Err(e)) => return Err(format!("retry on the same builder after a cancellation at poll {n} (callback now always answers false): build returned {e:?}")),
+    }
+    let st = walk(&wtxn, world.db, &m).map_err(|e| format!("retry on the same builder after a cancellation at poll {n}: {e}"))?;
+    if let Some(t) = sc.opts.n_trees {
+        if m.items.len() > sc.opts.capacity(sc.dims) && st.n_trees != t {
+            return Err(format!("retry on the same builder after a cancellation at poll {n}: {} trees requested, forest has {}", t, st.n_trees));
+        }
+    }
+    wtxn.abort();
+    c.inc("same_builder_retries");
+    Ok(())
+}
+
 /// (a) cancellation at every n
 fn case_cancel<D: Distance>(sc: &Scenario, stride: u64, c: &mut Counters, sigs: &mut BTreeSet<u64>) -> Result<(), String> {
     let world = World::new(256 << 20, false);
@@ -239,6 +289,10 @@ fn case_cancel<D: Distance>(sc: &Scenario, stride: u64, c: &mut Counters, sigs: 
         }
         c.inc("cancel_points_enumerated");
         n += if n < 40 || n + 40 > total { 1 } else { stride };
+    }
+    // retry on the very same builder object, in a fresh transaction, once the fault is lifted
+    for n in [0, total / 3, total.saturating_sub(1)] {
+        same_builder_retry::<D>(&world, sc, &base_model, n, c)?;
     }
     // clean retry
     let mut wtxn = world.env.write_txn().unwrap();
@@ -569,8 +623,8 @@ pub fn run(args: &Args) {
         .set("counters", c.to_json())
         .set("sigs", J::Arr(sigs.iter().map(|s| J::s(format!("{s:x}"))).collect()))
         .set("samples", J::Arr(samples))
-        .set("rule", J::s("fault enumeration: (a) per scenario (built index of 3-200 items + pending insertions/overwrites/deletions from none to 40+30, forests that must grow, shrink or stay) the cancellation callback answers true from its n-th call for n over the polls of a complete build (every n thorough; first/last 40 and every 7th quick), pools of 1 and 4 threads; (b) 18 LMDB map sizes from 64 KiB to 8 MiB around a ~1-3 MiB workload; (c) temp dir missing / a regular file / temp-file writes failing under RLIMIT_FSIZE; (d) fd count and temp-dir listing after each of hundreds of successful, cancelled and failed builds per process; non-trivial+distinct = distinct fault outcomes (MainStep at cancellation, map-full site, temp fault kind)"))
-        .set("required", J::Arr(["cancel_points_enumerated", "cancel_reported", "leak_probes", "tmp_tmpdir_missing", "tmp_tmpdir_is_a_file", "mapsize_ample", "mapsize_retry_ok"].iter().map(|s| J::s(*s)).collect()))
+        .set("rule", J::s("fault enumeration: (a) per scenario (built index of 3-200 items + pending insertions/overwrites/deletions from none to 40+30, forests that must grow, shrink or stay) the cancellation callback answers true from its n-th call for n over the polls of a complete build (every n thorough; first/last 40 and every 7th quick), pools of 1 and 4 threads, plus three retries per scenario on the same ArroyBuilder object after its cancellation (fresh transaction, fault lifted); (b) 18 LMDB map sizes from 64 KiB to 8 MiB around a ~1-3 MiB workload; (c) temp dir missing / a regular file / temp-file writes failing under RLIMIT_FSIZE; (d) fd count and temp-dir listing after each of hundreds of successful, cancelled and failed builds per process; non-trivial+distinct = distinct fault outcomes (MainStep at cancellation, map-full site, temp fault kind)"))
+        .set("required", J::Arr(["cancel_points_enumerated", "cancel_reported", "same_builder_retries", "leak_probes", "tmp_tmpdir_missing", "tmp_tmpdir_is_a_file", "mapsize_ample", "mapsize_retry_ok"].iter().map(|s| J::s(*s)).collect()))
         .set("wall_s", J::Num(t0.elapsed().as_secs_f64()));
     emit("SUMMARY", &j);
 }
